@@ -103,6 +103,8 @@ def Ctx.observe (c : Ctx) (s : Sim) (obsStr : String) (evs : List Spec.Ev) : Ctx
   | none =>
     let c := if obsStr.startsWith "obs-panic" || obsStr.startsWith "obs-timeout" then
         c.fail "PROP" s!"C04+C13+SPEC observing the state (WarriorCount/GetWarrior/Queue/GetMem/GetMemState): {obsStr}"
+      else if obsStr.startsWith "queue-answer" then
+        c.fail "PROP" s!"C13+C02+SPEC a slice returned earlier by Queue() changed after later calls (the answer aliases the simulator's ring): {obsStr.take 80}"
       else c.fail "PARSE" s!"bad observation '{obsStr}'"
     { c with st := { c.st with dead := true } }
   | some o =>
@@ -116,7 +118,7 @@ def Ctx.observe (c : Ctx) (s : Sim) (obsStr : String) (evs : List Spec.Ev) : Ctx
     let stale := c.st.spec.ws.map (·.stale)
     let stale := if c.ex.specOn then stale else o.ws.map (fun _ => false)
     -- C04
-    let c := match c04Check cfg o stale with
+    let c := match (if c.st.tag == "wild" then none else c04Check cfg o stale) with
       | some m => c.fail "PROP" s!"C04 {m} :: {showObs o}"
       | none => c
     -- reference
@@ -191,7 +193,8 @@ def Ctx.step (c : Ctx) (line : String) : Ctx :=
       length := u64 l, distance := u64 d }
     let sim := Sim.new cfg
     let M := cfg.coreSize.toNat
-    let specOn := M ≤ 300
+    -- tag `wild`: warriors with fields outside [0,M) (no property covers them: tie only)
+    let specOn := M ≤ 300 && tag != "wild"
     -- limits above the core size are clamped to it when the simulator is created
     let spec0 := Spec.Api.new M (min cfg.readLimit.toNat M) (min cfg.writeLimit.toNat M) cfg.processes.toNat cfg.cycles.toNat
     let st : CaseState := {
@@ -270,7 +273,13 @@ def Ctx.step (c : Ctx) (line : String) : Ctx :=
         else (c, [])
       if quiet then { c with st := { c.st with sim := some s' } } else c.observe s' obs evs
   | ["U"] =>
-    match s.runLoop (s.maxCycles.toNat + 2) with
+    -- the driver follows a battle for at most three million cycles: a longer one (a cycle limit
+    -- near 2^63 that no death decides) is beyond its horizon and the case is skipped
+    let horizon := 3000000
+    if s.maxCycles.toNat + 2 > horizon && (match s.runLoop horizon with | .ok (_, false) => true | _ => false) then
+      endCase (c.fail "SKIP" "battle longer than the driver's horizon of 3e6 cycles")
+    else
+    match s.runLoop (min (s.maxCycles.toNat + 2) horizon) with
     | .error p =>
       let c := if resp != "panic:" ++ showPanic p then c.fail "CORR" s!"Run: model panic {showPanic p} impl {resp}" else c
       endCase (c.fail "PROP" s!"C04+C13+SPEC+C12 Run {resp}")
@@ -281,7 +290,7 @@ def Ctx.step (c : Ctx) (line : String) : Ctx :=
       let c := if resp != want then c.fail "CORR" s!"Run: model {want} impl {resp}" else c
       if implEnded then endCase (c.fail "PROP" s!"C04+C13+SPEC+C12 Run {resp}") else
       let (c, evs) := if c.ex.specOn then
-          let (sp, evs) := c.st.spec.run (c.st.spec.C + 2)
+          let (sp, evs) := c.st.spec.run (min (c.st.spec.C + 2) horizon)
           let swant := if sp.ws.isEmpty then "nil"
             else ",".intercalate (sp.ws.map (fun w => if w.st == .alive then "1" else "0"))
           let c := if resp != swant then c.fail "PROP" s!"SPEC Run returned {resp}, reference {swant}" else c
@@ -331,6 +340,7 @@ def Ctx.step (c : Ctx) (line : String) : Ctx :=
           let swant := s!"a={if sw.st == .alive then 1 else 0} q={",".intercalate (sw.q.map toString)} x={xs} len={sw.code.length}"
           if resp != swant then c.fail "PROP" s!"SPEC warrior {i}: '{resp}' reference '{swant}'" else c
       else c
+  | ["M"] => c   -- a further reporter was attached: no effect on the state
   | ["D"] =>
     -- full dump: "c=.. res=.. mem=cell;cell.. w=alive:q/.."
     let memS := ";".intercalate (s.mem.toList.map showCell)
